@@ -226,11 +226,11 @@ theorem C04_complete_one_merge (H : Bytes → Bytes) (P0 : PStore) (t0 t1 t2 : N
     current tree with a fresh collector and its pending changes are replayed in the order `orderChanges` computes, which
     must not be stuck).  No discipline hypothesis: it is proved for every such run (`trieRun_discipline`).  Remaining:
     canonical resolvable start tree, key injectivity on the references `U` of the run. -/
-theorem C04_complete_run (H : Bytes → Bytes) (U : Ref → Prop) (P0 : PStore) (t0 t : Node) (b0 : Trie) (v : Nat)
+theorem C04_complete_run (H : Bytes → Bytes) (U : Ref → Prop) (Vok : Nat → Prop) (P0 : PStore) (t0 t : Node) (b0 : Trie)
     (es : List Event)
     (hfresh : b0.cc.changes = [] ∧ b0.cc.deletes = [])
     (h0 : Resolves H (Map.get P0.nodes) t0 []) (hw : WF t0) (hUt : ∀ r ∈ refs t0 [], U r)
-    (hrun : TrieRun H U v t0 es t) (hU : KeyInjOn H U) :
+    (hrun : TrieRun H U Vok t0 es t) (hU : KeyInjOn H U) :
     Resolves H (Map.get (P0.applyAll (saveStream H (b0.applyEvents H es))).nodes) t [] := by
   obtain ⟨hd, hc, _, hE, hUt'⟩ := trieRun_discipline H U hU hrun hw hUt (fun x => x ∈ (refs t0 []).map (Ref.key H))
     (fun r hr => List.mem_map.mpr ⟨r, hr, rfl⟩)
@@ -246,20 +246,20 @@ theorem C04_complete_run (H : Bytes → Bytes) (U : Ref → Prop) (P0 : PStore) 
   rw [hU a b (hin a ha) (hin b hb) hk]
 
 /-- non-vacuity of `C04_complete_run` (and `TrieRun`): the block trie merges one transaction that inserted a key -/
-example : ∃ es, TrieRun id (fun r => r = ⟨[], .leaf 1 [3] [65]⟩) 1 .empty es (.leaf 1 [3] [65]) ∧
+example : ∃ es, TrieRun id (fun r => r = ⟨[], .leaf 1 [3] [65]⟩) (fun v => v = 1) .empty es (.leaf 1 [3] [65]) ∧
     Resolves id (Map.get (({} : PStore).applyAll (saveStream id ((Trie.open [] .empty 1).applyEvents id es))).nodes)
       (.leaf 1 [3] [65]) [] := by
   have hC : RoundEvents 1 .empty ((insertE 1 [65] .empty [] [3]).2 ++ []) (.leaf 1 [3] [65]) := by
     apply RoundEvents.ins _ _ _ _ _ (by simp)
     have h1 : (insertE 1 [65] .empty [] [3]).1 = .leaf 1 [3] [65] := by simp [insertE]
     rw [h1]; exact RoundEvents.nil _
-  have hchild : TrieRun id (fun r => r = ⟨[], .leaf 1 [3] [65]⟩) 1 .empty
+  have hchild : TrieRun id (fun r => r = ⟨[], .leaf 1 [3] [65]⟩) (fun v => v = 1) .empty
       (((insertE 1 [65] .empty [] [3]).2 ++ []) ++ []) (.leaf 1 [3] [65]) :=
-    TrieRun.own _ _ _ _ _ hC (by intro r hr; simpa [insertE, eventRefs] using hr) (TrieRun.nil _)
-  have hrun := TrieRun.merge (H := id) (U := fun r => r = ⟨[], .leaf 1 [3] [65]⟩) (v := 1) .empty (.leaf 1 [3] [65])
+    TrieRun.own 1 _ _ _ _ _ rfl hC (by intro r hr; simpa [insertE, eventRefs] using hr) (TrieRun.nil _)
+  have hrun := TrieRun.merge (H := id) (U := fun r => r = ⟨[], .leaf 1 [3] [65]⟩) (Vok := fun v => v = 1) .empty (.leaf 1 [3] [65])
     (.leaf 1 [3] [65]) (Trie.open [] .empty 1) _ [] ⟨rfl, rfl⟩ hchild (by decide) (TrieRun.nil _)
   refine ⟨_, hrun, ?_⟩
-  apply C04_complete_run id _ {} .empty _ (Trie.open [] .empty 1) 1 _ ⟨rfl, rfl⟩ (by intro r h; simp [refs] at h)
+  apply C04_complete_run id _ _ {} .empty _ (Trie.open [] .empty 1) _ ⟨rfl, rfl⟩ (by intro r h; simp [refs] at h)
     (Or.inl rfl) (by intro r h; simp [refs] at h) hrun
   intro a b ha hb _
   rw [ha, hb]
